@@ -65,7 +65,7 @@ func mkCrit(c *core.Ctx, kind string, recs []R, dir string) crit {
 		return crit{kind, []string{"-a", "k=" + p}, func(r R) bool { return r.K >= 0 && re.MatchString(fmt.Sprint(r.K)) }}
 	case "-A":
 		// "id", "sequence" and "qualities" are parts of a record, not annotations: no record has them
-		k := []string{"sample", "k", "count", "definition", "nosuchkey", "id", "sequence", "qualities"}[c.Rng.Intn(8)]
+		k := []string{"sample", "k", "count", "definition", "nosuchkey", "id", "sequence", "qualities", "flag", "flag", "flag", "flag"}[c.Rng.Intn(12)]
 		return crit{kind, []string{"-A", k}, func(r R) bool { _, ok := r.annotations()[k]; return ok }}
 	case "--id-list":
 		set := map[string]bool{}
